@@ -35,6 +35,9 @@ OBLIGATIONS = [
     "C20_personalize", "C20_personalize_defined", "C20_line",
     # source-level tie (extension): the regenerated definitions of coq/gen/GenC20.v
     "C20_src_feature_values", "C20_src_feature_values_any", "C20_src_estimators", "C20_src_constant_trajectory",
+    "C20_src_lme_personalize", "C20_src_generic", "C20_src_paths_agree", "C20_src_lme_trajectory", "C20_src_fit_store",
+    "C20_src_fit_inverse", "C20_src_fit_inverse_1", "C20_src_fit_refuses_singular", "C20_cov_form", "C20_cov_form_zero",
+    "C20_src_fit_then_personalize",
 ]
 
 def translate(run: Run) -> bool:
@@ -660,10 +663,14 @@ def lme_fitted(run: Run, n_cohorts: int, cases_p, meta_p, cases_t, meta_t, cases
                         ip = model.personalize(data, "lme_personalize")
                 except Exception as e:  # statsmodels' optimiser is outside the property (singular covariance, no convergence)
                     run.count("lme.fit.outcome", f"{type(e).__name__}")
+                    if type(e).__name__ == "LeaspyDataInputError" and captured.get("fitted") is not None:
+                        fit_store_case(run, captured["fitted"], slope, None, m0)
                     continue
                 run.count("lme.fit.outcome", "ok")
                 fitted = captured.get("fitted")
                 P = model.parameters
+                if fitted is not None:
+                    fit_store_case(run, fitted, slope, np.atleast_2d(np.array(P["cov_re_unscaled_inv"], dtype=float)), m0)
                 cov_inv = np.array(P["cov_re_unscaled_inv"], dtype=float)
                 # (0) the conditional means GIVEN THE FITTED VARIANCE COMPONENTS, in covariance form (valid for a singular covariance too):
                 #     b_i = D Z_i' (Z_i D Z_i' + I)^-1 r_i  with  D = cov_re / noise variance  — equal to (Z'Z + D^-1)^-1 Z' r when D is invertible
@@ -773,6 +780,70 @@ def lme_fitted(run: Run, n_cohorts: int, cases_p, meta_p, cases_t, meta_t, cases
     finally:
         mlm.MixedLM.fit = orig_fit
         LMEPersonalizeAlgorithm._generic_get_random_effects = staticmethod(orig_gen)
+
+
+FIT_CASES = {1: ([], []), 2: ([], [])}      # k -> (Coq cases, meta) of the storing step of LMEFitAlgorithm._run
+
+
+def fit_store_case(run: Run, fitted, slope, stored_inv, m0):
+    """what statsmodels returned (fe_params, cov_re, scale, its own cov_re_unscaled) and what the code stored (the inverse, or None when it
+    refused with LeaspyDataInputError) -> one case for check_fit_store_{1,2} (the model of the storing step, tied to the source by T1)"""
+    import numpy as np
+    try:
+        cov = np.atleast_2d(np.asarray(fitted.cov_re, dtype=float))
+        uns = np.atleast_2d(np.asarray(fitted.cov_re_unscaled, dtype=float))
+        fe = [float(x) for x in np.asarray(fitted.fe_params, dtype=float).reshape(-1)]
+        scale = float(fitted.scale)
+    except Exception as e:  # noqa
+        run.count("lme.fit.store", f"statsmodels-result-unreadable:{type(e).__name__}")
+        return
+    k = 2 if slope else 1
+    if cov.shape != (k, k) or uns.shape != (k, k) or len(fe) != 2 or not finite(scale, *fe, *cov.reshape(-1), *uns.reshape(-1)) or scale == 0.0:
+        run.count("lme.fit.store", "degenerate-statsmodels-result(skipped)")
+        return
+    fu = [[frac(cov[i][j]) / frac(scale) for j in range(k)] for i in range(k)]
+    det = fu[0][0] if k == 1 else fu[0][0] * fu[1][1] - fu[0][1] * fu[1][0]
+    if stored_inv is None:
+        if det != 0:       # numpy's LU found a zero pivot in floating point although the exact determinant is not 0: not comparable
+            run.count("lme.fit.store", "refused-in-floating-point-only(skipped)")
+            return
+        obs = "None"
+    else:
+        if not finite(*stored_inv.reshape(-1)):
+            obs = None
+        elif det != 0 and float(np.linalg.cond(uns)) > 1e6:
+            run.count("lme.fit.store", "ill-conditioned(skipped)")
+            return
+        else:
+            obs = f"(Some {cmat(stored_inv.tolist())})" if k == 2 else f"(Some {q(stored_inv[0][0])})"
+    m = dict(m0, case="lme-fit", statsmodels=dict(fe_params=fe, cov_re=cov.tolist(), scale=scale, cov_re_unscaled=uns.tolist()),
+             stored_cov_re_unscaled_inv=None if stored_inv is None else stored_inv.tolist())
+    run.count("lme.fit.store", ("refused" if stored_inv is None else "accepted") + ("-exactly-singular" if det == 0 else "-regular"))
+    run.case(("lme-fit-store", k, tuple(cov.reshape(-1)), scale), nontrivial=True)
+    if obs is None:
+        run.fail("lme:fit:cov-re-unscaled-inv", "the fit stores a non-finite cov_re_unscaled_inv", m, observed=m["stored_cov_re_unscaled_inv"])
+        return
+    mat = (lambda a: cmat(a.tolist())) if k == 2 else (lambda a: q(a[0][0]))
+    cases, meta = FIT_CASES[k]
+    cases.append(f"(SmResult ({q(fe[0])}, {q(fe[1])}) {mat(cov)} {q(scale)}, {mat(uns)}, {obs}, {q(Fraction(1, 10 ** 6))})")
+    meta.append(m)
+
+
+def fit_store_check(run: Run):
+    hdr = HDR.replace("Api.BenchTie.", "Api.BenchTie Api.BenchFit.")
+    for k, ty in ((2, "sm_result mat2 * mat2 * option mat2 * Q"), (1, "sm_result Q * Q * option Q * Q")):
+        cases, meta = FIT_CASES[k]
+        bad = run.vm_bad_indices(f"lme_fit_store_{k}", hdr, ty, cases, f"check_fit_store_{k}") if cases else []
+        for i in bad or []:
+            m = meta[i]
+            refused = m["stored_cov_re_unscaled_inv"] is None
+            run.fail("lme:fit:singular-covariance-accepted" if not refused else "lme:fit:cov-re-unscaled-inv",
+                     "what LMEFitAlgorithm._run stored differs from the model of the storing step (Bench.lme_fit_store: inv(cov_re / scale), a singular "
+                     "covariance refused with LeaspyDataInputError)" + ("" if refused else
+                     " - here the fit was ACCEPTED; if cov_re is singular the stored matrix is not an inverse and personalisation does not return the conditional means"),
+                     m, expected="LeaspyDataInputError (singular) or the inverse of cov_re / scale", observed=m["stored_cov_re_unscaled_inv"])
+        run.extra[f"lme_fit_store_cases_{k}"] = len(cases)
+        del cases[:], meta[:]
 
 
 def benchmark_object_reuse(run: Run, thorough: bool):
@@ -910,6 +981,7 @@ def lme_all(run: Run, thorough: bool):
     for i in bad or []:
         m, out = meta_b[i]
         run.fail("lme:blup", "recorded call of _generic_get_random_effects differs from the Coq model (Bench.blup2)", m, observed=out)
+    fit_store_check(run)
     run.extra["lme_personalize_cases"] = len(cases_p)
     run.extra["lme_trajectory_cases"] = len(cases_t)
     run.extra["lme_recorded_blup_calls"] = len(cases_b)
